@@ -525,6 +525,24 @@ func (h *hostAPI) sigChecks(f *ir.Func) []sigCheck {
 	return out
 }
 
+// pointee: `*p`, or a pointer-typed local p used as the base of a selector, where p is defined once as `&E`: E.
+func pointee(f *ir.Func, e ast.Expr) ast.Expr {
+	e = ast.Unparen(e)
+	base := e
+	if st, isStar := e.(*ast.StarExpr); isStar {
+		base = ast.Unparen(st.X)
+	} else if t := f.TypeOf(e); t == nil || !isPointer(t) {
+		return e
+	}
+	if _, isID := base.(*ast.Ident); !isID {
+		return e
+	}
+	if u, isAddr := ast.Unparen(origin(f, base)).(*ast.UnaryExpr); isAddr && u.Op == token.AND {
+		return ast.Unparen(u.X)
+	}
+	return e
+}
+
 // sameLvalue compares two lvalue expressions structurally (identifiers by object, fields by object, constant indices).
 func sameLvalue(f *ir.Func, a, b ast.Expr) bool {
 	a, b = ast.Unparen(a), ast.Unparen(b)
@@ -582,8 +600,14 @@ func (h *hostAPI) expectedTargets(f *ir.Func, sink ir.Call, checks []sigCheck) (
 	case h.addC.Origin():
 		need = []string{"contract"}
 		for _, ck := range checks {
-			// hash of <txn>.FileContracts[0]
-			if ix, ok := ast.Unparen(ck.target).(*ast.IndexExpr); ok {
+			// hash of <txn>.FileContracts[0] — possibly through a pointer taken once: `c := &txn.FileContracts[0]`, `*c`
+			tgt := ast.Unparen(ck.target)
+			if st, isStar := tgt.(*ast.StarExpr); isStar {
+				if u, isAddr := ast.Unparen(origin(f, st.X)).(*ast.UnaryExpr); isAddr && u.Op == token.AND {
+					tgt = ast.Unparen(u.X)
+				}
+			}
+			if ix, ok := tgt.(*ast.IndexExpr); ok {
 				if sel, ok := ast.Unparen(ix.X).(*ast.SelectorExpr); ok && sel.Sel.Name == "FileContracts" && f.Callee(ck.hashCall) == h.contractSig.Origin() {
 					have["contract"] = ck
 				}
@@ -690,7 +714,7 @@ func c08r5(c *Ctx) {
 						if !ok || sel.Sel.Name != "HostSignature" || w.RHS == nil {
 							continue
 						}
-						if !sameLvalue(f, sel.X, ck.target) && !(f.ObjOf(sel.X) != nil && f.ObjOf(ck.target) != nil && copyRoot(f, f.ObjOf(sel.X)) == copyRoot(f, f.ObjOf(ck.target))) {
+						if !sameLvalue(f, sel.X, ck.target) && !sameLvalue(f, pointee(f, sel.X), pointee(f, ck.target)) && !(f.ObjOf(sel.X) != nil && f.ObjOf(ck.target) != nil && copyRoot(f, f.ObjOf(sel.X)) == copyRoot(f, f.ObjOf(ck.target))) {
 							continue
 						}
 						call, ok := ast.Unparen(w.RHS).(*ast.CallExpr)
